@@ -81,6 +81,8 @@ def run(tier, config):
                 rep.add("%s|xml-name|%s|%s" % (Q.disp(f), base, r[:60]), "C19:D3", bool(lit or sanitised),
                         "element name is %s" % ("a literal" if lit else "sanitised") if (lit or sanitised) else
                         "element name %s comes from the serialised data (map keys such as server rule names) without sanitising: not every key is a valid XML name" % r[:80], t.get("at"))
+    from .. import tracespec as TS
+    TS.compare(rep, c, "C19", "C19:flow-table")
     rep.floor("local Result-returning call sites", n_calls, 10)
     rep.floor("XML element constructor sites", n_xml, 4)
     rep.floor("panic sites in the CLI", n, 3)
